@@ -31,6 +31,17 @@ CLAIMS = {
         "Trusted: rustc type checker / MIR, the driver, std::fs / tokio::fs semantics (set_len, append mode), crc32fast.",
         "static analysis: MIR edge dominance and value provenance; typed-HIR writer/reader frame-table agreement",
         "DESIGN.md §3 C05"),
+    "C01": (
+        "Decides the ordering / provenance skeleton of write, flush and recovery: R1 every call that buffers an incoming batch is dominated by "
+        "the success edge of WriteAheadLog::append (or the no-WAL edge), with the same batch, only the write path and recovery insert into the "
+        "buffer, the ack follows buffering; R2 append_payload propagates both writes and syncs before Ok under EveryWrite; R3 WAL truncation and "
+        "both flushed marks are dominated by successful upload and registration; R4 the flushed mark must not be the shared last_wal_seq atomic "
+        "(KNOWN FINDING: it is); R5 a failed flush must give the taken batches back (KNOWN FINDING: 5 sites drop them); R6 recovery replays from "
+        "exactly the persisted mark into the buffer before the WAL is installed, and the ingester binary recovers before it serves. Does not "
+        "decide loss-freedom under arbitrary crash / fault sequences (that needs the two findings repaired), fsync semantics, repeated restarts.",
+        "Trusted: rustc / driver / engine normalisers; tokio::fs and std::fs semantics; the reviewed table of WriteBuffer methods that do not insert.",
+        "static analysis: MIR edge dominance (must-pass-through), value provenance, who-may-call; lib + ingester binary",
+        "DESIGN.md §3 C01"),
 }
 
 NOT_YET = "rule set under construction in this round; see DESIGN.md §3 for the planned static rules"
